@@ -224,6 +224,12 @@ def build(ctx):
     with concolic.object_alloc():
         g.trace('tr_SE2_inv', [('X', 'M33')], lambda X: E2(X).inv().A, sampler=lambda rng: [rnd_se2(rng)])
         g.trace('tr_SE2_div', [('X', 'M33'), ('Y', 'M33')], lambda X, Y: (E2(X) / E2(Y)).A, sampler=lambda rng: [rnd_se2(rng), rnd_se2(rng)])
+    for n in (-1, -2, -3):
+        g.trace(f'tr_SO3_powm{-n}', [('X', 'M33')], (lambda n: lambda X: (S3(X) ** n).A)(n), sampler=lambda rng: [rnd_so3(rng)], tol=1e-9)
+        g.trace(f'tr_SE3_powm{-n}', [('X', 'M44')], (lambda n: lambda X: (E3(X) ** n).A)(n), sampler=lambda rng: [rnd_se3(rng)], tol=1e-9)
+    with concolic.object_alloc():
+        g.trace('tr_SE2_powm2', [('X', 'M33')], lambda X: (E2(X) ** -2).A, sampler=lambda rng: [rnd_se2(rng)], tol=1e-9)
+    g.trace('tr_SO2_powm2', [('X', 'M22')], lambda X: (S2(X) ** -2).A, sampler=lambda rng: [rnd_so2(rng)], tol=1e-9)
     for n in (0, 1, 2, 3):
         g.trace(f'tr_SO3_pow{n}', [('X', 'M33')], (lambda n: lambda X: (S3(X) ** n).A)(n), sampler=lambda rng: [rnd_so3(rng)], tol=1e-9)
         g.trace(f'tr_SE3_pow{n}', [('X', 'M44')], (lambda n: lambda X: (E3(X) ** n).A)(n), sampler=lambda rng: [rnd_se3(rng)], tol=1e-9)
@@ -474,7 +480,7 @@ class Oracle:
             # the operator built its result and handed it to a class constructor with check=True, which refused it
             rres = max([self.check_value(kind, e)[0] for e in rej] + [0.0]) if len(rej) else float('inf')
             if rres <= TOL:
-                key = 'oracle:revalidation:constructor-rejects-valid-operator-result'
+                key = 'oracle:constructor-refuses-valid-operator-result'
                 what = (f"{clsname}.{op}: the result (validity residual {rres:.3g} <= 1e-9) of an operator on valid operands is "
                         f"refused by the class constructor's strict re-validation -> {type(ex).__name__}")
             else:
@@ -539,6 +545,8 @@ class Oracle:
                 self.call(f'SO3.Eul:{unit}', 'R3', lambda: SO3.Eul(a3, unit=unit).data, a3, multi=True)
                 self.call(f'SE3.Eul:{unit}', 'T3', lambda: SE3.Eul([a3, a3[::-1]], unit=unit).data, a3, multi=True)
                 self.call(f'UnitQuaternion.Eul:{unit}', 'Q', lambda: UnitQuaternion.Eul(a3, unit=unit).data, a3, multi=True)
+                self.call(f'UnitQuaternion.Eul/RPY:Nx3:{unit}', 'Q', lambda: UnitQuaternion.Eul(np.array([a3, a3[::-1]]), unit=unit).data
+                          + UnitQuaternion.RPY(np.array([a3, a3[::-1]]), unit=unit).data, a3, multi=True)
                 v = self.axis()
                 self.call(f'angvec2r:{unit}', 'R3', lambda: base.angvec2r(a, v, unit=unit), np.r_[a, v])
                 self.call(f'angvec2tr:{unit}', 'T3', lambda: base.angvec2tr(a, v, unit=unit), np.r_[a, v])
@@ -714,6 +722,9 @@ class Oracle:
                            [(q0, 'Q'), (q1, 'Q')], inp, multi=True)
                 self.icall(f'UnitQuaternion.interp:shortest={sh}', 'Q', 'UnitQuaternion', lambda: uq_raw(dq).interp(s, shortest=sh).data,
                            [(dq, 'Q')], np.r_[dq, s, th], multi=True)
+            self.icall('UnitQuaternion.interp:vector-s', 'Q', 'UnitQuaternion', lambda: uq_raw(dq).interp(sv).data, [(dq, 'Q')], np.r_[dq, sv, th], multi=True)
+            self.icall('UnitQuaternion.interp:multi', 'Q', 'UnitQuaternion', lambda: UnitQuaternion([q0, q1], check=False).interp(s, shortest=True).data,
+                       [(q0, 'Q'), (q1, 'Q')], inp, multi=True)
             # ---- 3-D poses: T1 = T0 * (rotation by th), translations up to 1e6
             T0 = np.eye(4)
             T0[:3, :3], T0[:3, 3] = rnd_so3(rng), self.trans(3)
